@@ -2,7 +2,7 @@ from . import term_common
 
 SPEC = {
     "props_file": "C02.v",
-    "targets": ["theories/Props/C02.vo", "theories/Term/Check.vo"],
+    "targets": ["theories/Props/C02.vo", "theories/Term/Check.vo", "theories/Term/Cover.vo"],
     "fail_text": "infeasibility status but the returned certificate, re-evaluated exactly against the original data, fails the code's test read in user coordinates (cone membership, sign of b'z or q'x, relative norm bounds), or objectives are not NaN, or the scaled inner product is not c*kappa times the user-coordinates one",
     "direct_keys": [],
     "rule": "one evaluation = one solver run ending PrimalInfeasible or DualInfeasible, its certificate re-evaluated in exact dyadic arithmetic by the proved-sound checkers chk_farkas_p / chk_farkas_d against the user's original data; non-trivial = at least 2 variables or constraints; distinct = distinct problem JSON",
